@@ -626,7 +626,7 @@ def gen_seq_list(rng):
             spec["progs"].append([rng.randrange(0, horizon + 1), ch, rng.randrange(0, 128)])
         for _ in range(rng.choice([0, 0, 0, 1])):
             spec["ccs"].append([rng.randrange(0, horizon + 1), ch, rng.randrange(0, 120), rng.randrange(0, 128)])
-        out.append({"spec": spec, "mode": rng.choice(["abs", "rel", "both"])})
+        out.append({"spec": spec, "mode": rng.choice(["abs", "rel", "both", f"insert:{rng.randrange(1, 1 << 20)}"])})
     return out
 
 
